@@ -740,6 +740,10 @@ func genFault(t *rapid.T) faultCase {
 		pbt.Excluded(kGenLine)
 		c.Bad = "$GENERATE 1-2 a${0,0,q} 300 IN A 10.0.0.1"
 	}
+	if pbt.Known(kTTLUnits) && unitOnlyTTL(c.Bad) {
+		pbt.Excluded(kTTLUnits)
+		c.Bad = "$TTL not-a-ttl"
+	}
 	if pbt.Known(kTTLWrap) && wrapsTTL(c.Bad) {
 		pbt.Excluded(kTTLWrap)
 		c.Bad = "bad.example. 99999999999 IN A 10.0.0.1"
